@@ -430,8 +430,6 @@ Qed.
 End Proofs.
 
 (* ------------------------------------------------------------------ witnesses where the faithful model violates the statement *)
-(* a concrete digest for the witnesses: algorithm tag followed by the data (injective) *)
-Definition Hsym (a : Z) (d : bytes) : bytes := a :: d.
 
 Definition w_cert : cert := mkCert 100 200 true true.
 Definition w_req : request := mkReq [1; 2; 3] 3 7 false.
